@@ -1776,8 +1776,9 @@ pub fn run_case(case: &Case, stats: &mut Stats) -> RunReport {
                             }
                         }
                     }
-                    const PROBES: [&[u8]; 8] =
-                        [b"7", b"a\n\nb", b"\n\n", b" x", b"\\", b"\"", b"", b"p\n\n\nq"];
+                    const PROBES: [&[u8]; 9] = [
+                        b"7", b"a\n\nb", b"\n\n", b" x", b"\\", b"\"", b"", b"p\n\n\nq", b"\xff\xfe",
+                    ];
                     for (k, name) in names.iter().take(3).enumerate() {
                         let declared_by = l
                             .ix
@@ -1804,6 +1805,36 @@ pub fn run_case(case: &Case, stats: &mut Stats) -> RunReport {
                         });
                         relational += 1;
                         stats.bump("rule.R14.evaluated");
+                        // ... and help tells a set variable from an unset one, whatever the
+                        // value (not valid UTF-8 included)
+                        if old.is_none() {
+                            if let (Outcome::Stdout(a), Outcome::Stdout(b)) = (&first.outcome, &other.outcome) {
+                                let visible = l.ix.iter().any(|it| {
+                                    it.level == 0
+                                        && it.group.is_none()
+                                        && it.ctx != Ctx::Other
+                                        && (!it.named.shorts.is_empty() || !it.named.longs.is_empty())
+                                        && !it.stack.iter().any(|w| matches!(w, W::Hide))
+                                        && it.named.envs.first().map_or(false, |e| e.as_bytes() == &name[..])
+                                });
+                                if visible {
+                                    stats.bump("rule.R14state.evaluated");
+                                    if a == b {
+                                        violation!(
+                                            "R14",
+                                            opi,
+                                            "rule=R14 help-ignores-variable-state".to_string(),
+                                            format!(
+                                                "help is the same whether {} is unset or set to {:?}\n{}",
+                                                String::from_utf8_lossy(name),
+                                                String::from_utf8_lossy(new),
+                                                describe(&first)
+                                            )
+                                        );
+                                    }
+                                }
+                            }
+                        }
                         let (a, b) = match (&first.outcome, &other.outcome) {
                             (Outcome::Stdout(a), Outcome::Stdout(b)) => (a, b),
                             _ => {
